@@ -196,7 +196,10 @@ func (cur *FieldMask) addPath(path string, curDesc *thrift_reflection.TypeDescri
 
 			var f *thrift_reflection.FieldDescriptor
 			if typ == pathTypeLitInt {
-				id := tok.val.Int32()
+				id, ok := tok.val.Int32()
+				if !ok {
+					return errPath(tok, "field id out of range")
+				}
 				f = st.GetFieldById(id)
 				if f == nil {
 					return errDesc(curDesc, "field "+strconv.Itoa(int(id))+" doesn't exist")
